@@ -151,6 +151,9 @@ type FrameDecl struct {
 	Line   int
 	File   string
 	IsCall bool // callers K: ... instead of frame
+	IsArg    bool // argpolicy
+	ArgIndex int
+	ArgLit   string
 }
 
 type TypeInv struct {
@@ -186,7 +189,7 @@ type tok struct {
 var clauseKW = map[string]bool{
 	"requires": true, "ensures": true, "modifies": true, "loop": true, "invariant": true, "decreases": true,
 	"property": true, "wraps": true, "func": true, "pred": true, "pure": true, "trusted": true, "inline": true,
-	"frame": true, "callers": true, "type": true, "package": true, "nosafety": true, "note": true, "recursion": true, "ghost": true,
+	"frame": true, "callers": true, "type": true, "package": true, "nosafety": true, "note": true, "recursion": true, "ghost": true, "argpolicy": true,
 }
 
 func lexSpec(lines []string, lineNos []int) ([]tok, error) {
@@ -695,6 +698,40 @@ func parseSpecFile(path string, defaultPkg string) (sf *SpecFile, err error) {
 			ty := p.typeName()
 			sf.Ghosts = append(sf.Ghosts, &GhostField{Pkg: sf.Pkg, Type: tn, Name: fn, TypeName: ty})
 			cur = nil
+		case "argpolicy":
+			// argpolicy Func <argIndex> <literal> unless: f1, f2   -- callers outside the list must pass the literal
+			fd := &FrameDecl{Pkg: sf.Pkg, Line: t.line, File: path, IsArg: true}
+			name := p.next().s
+			for p.accept(".") {
+				name += "." + p.next().s
+			}
+			fd.Comp = name
+			fd.ArgIndex, _ = strconv.Atoi(p.next().s)
+			fd.ArgLit = p.next().s
+			if !p.isKW("unless") {
+				p.fail("argpolicy: `unless` expected")
+			}
+			p.next()
+			p.expect(":")
+			for !p.atClauseStart() {
+				n := p.next().s
+				for p.isOp(".") || p.isOp("/") {
+					sep := p.next().s
+					n += sep + p.next().s
+				}
+				fd.Funcs = append(fd.Funcs, n)
+				if !p.accept(",") {
+					break
+				}
+			}
+			if p.isKW("property") {
+				p.next()
+				for !p.atClauseStart() {
+					fd.Props = append(fd.Props, p.next().s)
+				}
+			}
+			sf.Frames = append(sf.Frames, fd)
+			cur = nil
 		case "frame", "callers":
 			fd := &FrameDecl{Pkg: sf.Pkg, Line: t.line, File: path, IsCall: t.s == "callers"}
 			name := p.next().s
@@ -705,8 +742,9 @@ func parseSpecFile(path string, defaultPkg string) (sf *SpecFile, err error) {
 			p.expect(":")
 			for !p.atClauseStart() {
 				n := p.next().s
-				for p.accept(".") {
-					n += "." + p.next().s
+				for p.isOp(".") || p.isOp("/") {
+					sep := p.next().s
+					n += sep + p.next().s
 				}
 				fd.Funcs = append(fd.Funcs, n)
 				if !p.accept(",") {
